@@ -13,7 +13,7 @@ import shutil
 import traceback
 from typing import Any, Dict, List, Optional, Tuple
 
-from vlib import gen, ref, sut_c, sut_compiler, sut_py
+from vlib import harness, gen, ref, sut_c, sut_compiler, sut_py
 from vlib.gen import GenCfg
 from vlib.harness import Ctx
 from vlib.model import Arr, Base, Enum, File, Message, Ref, messages_of
@@ -227,8 +227,7 @@ def run_std_cases(ctx: Ctx, n_cases: int, n_values: int, judge: Dict[str, bool])
             try:
                 comp = sut_compiler.compile_schema(root, d, ["c", "py"], rng=rng, emit_kw=dict(semi=0.3, comments=0.2, path_style="random"))
             except Exception as e:
-                res.count("skipped_compile_error")
-                res.observe("compile_error_classes", type(e).__name__)
+                harness.compile_failed(res, e, wit)
                 continue
             wit["schema"] = describe(root, comp["paths"])
             try:
@@ -488,8 +487,7 @@ def run_opt_cases(ctx: Ctx, n_cases: int, n_random: int, judge: Dict[str, bool],
                     sut_compiler.compile_schema(root, top, ["go"], outdir=dgo, optimize=True, paths=paths)
                     dirs["go"] = dgo
             except Exception as e:
-                res.count("skipped_compile_error")
-                res.observe("compile_error_classes", f"{type(e).__name__}: {str(e)[:80]}")
+                harness.compile_failed(res, e, wit)
                 continue
             dg_std = sut_c.DriverGen(root, with_json=True)
             dg_opt = sut_c.DriverGen(root, with_json=False)
